@@ -126,4 +126,5 @@ def determinism(ir, inputs, outputs, label, timeout_s=120):
     ob = [t.as_int() for n in outputs for t in b.named(n)] if outputs else [t.as_int() for t in b.pis()]
     s.holds(f"{label}: same inputs => same public output for every pair of witnesses",
             z3.And([x == y for x, y in zip(oa, ob)]))
+    s.copy_b = b
     return a, s
